@@ -777,6 +777,21 @@ Section KKProofs.
         apply IH; try rewrite heap_push_length; try lia; [exact Hb|reflexivity].
   Qed.
 
+  (** the recorded best partition, if any, is always a partition of the items *)
+  Lemma explore_part_valid mode k its fuel h st : heap_inv k its h ->
+    (forall b, ckk_part st = Some b -> is_partition valueof k its b) ->
+    forall b, ckk_part (ckk_explore nameof true fuel mode k h st) = Some b ->
+              is_partition valueof k its b.
+  Proof.
+    intros Hh Hst.
+    apply (explore_preserves mode k (heap_inv k its)
+             (fun _ part _ => forall b, part = Some b -> is_partition valueof k its b)).
+    - intros e1 e2 rest c Hh' Hc. eapply ckk_child_inv; eassumption.
+    - intros e best part ys Hh' _ _ b E. injection E as <-. apply single_heap_partition. exact Hh'.
+    - exact Hh.
+    - exact Hst.
+  Qed.
+
   (** ---- per-entry facts that hold for everything pushed through heap_push ---- *)
   Definition key_ok (e : @hentry A) : Prop := fst e = - bins_diff (snd e).
   Definition sorted_ok (e : @hentry A) : Prop := StronglySorted Z.le (sums (snd e)).
@@ -1195,8 +1210,35 @@ Section KKProofs.
     nia.
   Qed.
 
+  Lemma expands_inv h h' : expands h h' ->
+    h' = h \/ exists e1 e2 rest c, h = e1 :: e2 :: rest /\
+                 In c (all_combinations nameof true (snd e1) (snd e2)) /\
+                 expands (heap_push rest c) h'.
+  Proof.
+    intros H. destruct H as [h|e1 e2 rest c h' Hc He]; [left; reflexivity|].
+    right. exists e1, e2, rest, c. repeat split; assumption.
+  Qed.
+
+  Lemma expands_nil_inv h' : expands [] h' -> h' = [].
+  Proof.
+    intros H. destruct (expands_inv _ _ H) as [E|(e1 & e2 & rest & c & E & _)]; [exact E|discriminate E].
+  Qed.
+
+  Lemma expands_single_inv e1 h' : expands [e1] h' -> h' = [e1].
+  Proof.
+    intros H. destruct (expands_inv _ _ H) as [E|(x1 & x2 & rest & c & E & _)]; [exact E|discriminate E].
+  Qed.
+
+  Lemma expands_cons2_leaf_inv e1 e2 rest e : expands (e1 :: e2 :: rest) [e] ->
+    exists c, In c (all_combinations nameof true (snd e1) (snd e2)) /\
+              expands (heap_push rest c) [e].
+  Proof.
+    intros H. destruct (expands_inv _ _ H) as [E|(x1 & x2 & r & c & E & Hc & He)]; [discriminate E|].
+    injection E as -> -> ->. exists c. split; assumption.
+  Qed.
+
   Lemma expands_nonempty h (e : @hentry A) : expands h [e] -> h <> [].
-  Proof. intros H. inversion H; discriminate. Qed.
+  Proof. intros H E. subst h. apply expands_nil_inv in H. discriminate H. Qed.
 
   Lemma ckk_bound_eq k (h : @heap A) lb : ckk_bound k h = Some lb ->
     (2 <= k)%nat /\
@@ -1270,6 +1312,162 @@ Section KKProofs.
     cbn [gt_best]. lia.
   Qed.
 
+  (** ---- 8. ckk returns the best leaf of its own search tree (C02 ingredient) ---- *)
+  Definition stop_ok (st : @ckk_state A) : Prop := ckk_stop st = true -> ckk_best st = Some 0.
+  Definition best_le (st st' : @ckk_state A) : Prop :=
+    forall b, ckk_best st = Some b -> exists b', ckk_best st' = Some b' /\ b <= b'.
+  Definition covers (st : @ckk_state A) (e : @hentry A) : Prop :=
+    exists b, ckk_best st = Some b /\ fst e <= b.
+
+  Lemma best_le_refl st : best_le st st.
+  Proof. intros b Hb. exists b. split; [exact Hb|lia]. Qed.
+
+  Lemma best_le_trans s1 s2 s3 : best_le s1 s2 -> best_le s2 s3 -> best_le s1 s3.
+  Proof.
+    intros H1 H2 b Hb. destruct (H1 b Hb) as (b' & Hb' & L1). destruct (H2 b' Hb') as (b'' & Hb'' & L2).
+    exists b''. split; [exact Hb''|lia].
+  Qed.
+
+  Lemma covers_mono s1 s2 e : best_le s1 s2 -> covers s1 e -> covers s2 e.
+  Proof.
+    intros H (b & Hb & L). destruct (H b Hb) as (b' & Hb' & L'). exists b'. split; [exact Hb'|lia].
+  Qed.
+
+  Lemma zmin_le_zmax l : zmin l <= zmax l.
+  Proof.
+    destruct l as [|x t]; [cbn; lia|].
+    pose proof (zmax_ge (x :: t)) as G. rewrite Forall_forall in G.
+    apply G, zmin_in. discriminate.
+  Qed.
+
+  Lemma leaf_key (e : @hentry A) : sorted_ok e -> key_ok e ->
+    fst e = - (zmax (sums (snd e)) - zmin (sums (snd e))).
+  Proof. intros Hs Hk. unfold key_ok in Hk. rewrite Hk, (bins_diff_sorted _ Hs). reflexivity. Qed.
+
+  Lemma expands_leaf_key k its h e : heap_full k its h -> expands h [e] ->
+    fst e = - (zmax (sums (snd e)) - zmin (sums (snd e))).
+  Proof.
+    intros Hf Hex. destruct (expands_full k its _ _ Hex Hf) as (_ & Hs & Hk).
+    apply leaf_key; [exact (Forall_inv Hs)|exact (Forall_inv Hk)].
+  Qed.
+
+  Lemma expands_leaf_nonpos k its h e : heap_full k its h -> expands h [e] -> fst e <= 0.
+  Proof.
+    intros Hf Hex. rewrite (expands_leaf_key k its h e Hf Hex).
+    pose proof (zmin_le_zmax (sums (snd e))). lia.
+  Qed.
+
+  Definition explore_best_spec (k : nat) (its : list A) (f : nat) : Prop :=
+    forall h st, heap_full k its h -> (length h <= S f)%nat -> stop_ok st ->
+      stop_ok (ckk_explore nameof true f true k h st) /\
+      best_le st (ckk_explore nameof true f true k h st) /\
+      forall e, expands h [e] -> covers (ckk_explore nameof true f true k h st) e.
+
+  Lemma fold_best k its f : explore_best_spec k its f ->
+    forall L st,
+      (forall c, In c L -> heap_full k its c /\ (length c <= S f)%nat) -> stop_ok st ->
+      stop_ok (fold_left (fun s c => ckk_explore nameof true f true k c s) L st) /\
+      best_le st (fold_left (fun s c => ckk_explore nameof true f true k c s) L st) /\
+      forall c e, In c L -> expands c [e] ->
+        covers (fold_left (fun s c => ckk_explore nameof true f true k c s) L st) e.
+  Proof.
+    intros IHf. induction L as [|c0 cs IH]; intros st HL Hso; cbn [fold_left].
+    - split; [exact Hso|]. split; [apply best_le_refl|]. intros c e [].
+    - destruct (HL c0 (or_introl eq_refl)) as [Hf0 Hl0].
+      destruct (IHf c0 st Hf0 Hl0 Hso) as (S1 & B1 & C1).
+      destruct (IH (ckk_explore nameof true f true k c0 st)) as (S2 & B2 & C2);
+        [intros c Hc; apply HL; right; exact Hc|exact S1|].
+      split; [exact S2|]. split; [eapply best_le_trans; eassumption|].
+      intros c e [<-|Hc] Hex.
+      + eapply covers_mono; [exact B2|]. apply C1. exact Hex.
+      + eapply C2; eassumption.
+  Qed.
+
+  Lemma explore_best_step k its fuel : Forall (fun x => 0 <= valueof x) its ->
+    (forall f, fuel = S f -> explore_best_spec k its f) -> explore_best_spec k its fuel.
+  Proof.
+    intros Hpos IH h st Hf HL Hso. rewrite ckk_explore_eq.
+    destruct (ckk_stop st) eqn:Es.
+    - split; [exact Hso|]. split; [apply best_le_refl|].
+      intros e He. exists 0. split; [apply Hso; exact Es|].
+      eapply expands_leaf_nonpos; eassumption.
+    - assert (St : stop_ok (tick st)) by (intros H; discriminate H).
+      assert (Bt : best_le st (tick st)) by (exact (best_le_refl st)).
+      destruct (pruned k h (ckk_best st)) eqn:Ep.
+      + split; [exact St|]. split; [exact Bt|].
+        intros e He. pose proof (ckk_prune_sound k its h e _ Hf Hpos Ep He) as G.
+        unfold covers. cbn [tick ckk_best].
+        destruct (ckk_best st) as [b|]; cbn [gt_best] in G; [|discriminate].
+        exists b. split; [reflexivity|lia].
+      + destruct h as [|e1 [|e2 rest]].
+        * split; [exact St|]. split; [exact Bt|].
+          intros e He. apply expands_nil_inv in He. discriminate He.
+        * destruct (gt_best (fst e1) (ckk_best st)) eqn:G.
+          -- split; [|split].
+             ++ unfold stop_ok, accept. cbn [ckk_stop ckk_best]. intros H. f_equal. lia.
+             ++ intros b Hb. exists (fst e1). unfold accept. cbn [ckk_best].
+                split; [reflexivity|]. rewrite Hb in G. cbn [gt_best] in G. lia.
+             ++ intros e He. apply expands_single_inv in He. injection He as ->.
+                exists (fst e1). unfold accept. cbn [ckk_best].
+                split; [reflexivity|lia].
+          -- split; [exact St|]. split; [exact Bt|].
+             intros e He. apply expands_single_inv in He. injection He as ->.
+             unfold covers. cbn [tick ckk_best].
+             destruct (ckk_best st) as [b|]; cbn [gt_best] in G; [|discriminate].
+             exists b. split; [reflexivity|lia].
+        * destruct fuel as [|f]; [cbn [length] in HL; lia|].
+          destruct (fold_best k its f (IH f eq_refl)
+                      (rev (sort_asc topdiff (children rest (snd e1) (snd e2)))) (tick st))
+            as (S2 & B2 & C2).
+          -- intros c Hc. destruct (children_in _ _ _ _ Hc) as (comb & Hcomb & ->).
+             split; [eapply child_full; eassumption|].
+             rewrite heap_push_length. cbn [length] in HL. lia.
+          -- exact St.
+          -- split; [exact S2|]. split; [exact B2|].
+             intros e He. destruct (expands_cons2_leaf_inv _ _ _ _ He) as (c & Hc & Hex').
+             eapply C2; [|exact Hex'].
+             apply -> in_rev. apply sort_asc_In. unfold children. apply in_map. exact Hc.
+  Qed.
+
+  Lemma explore_best k its : Forall (fun x => 0 <= valueof x) its ->
+    forall fuel, explore_best_spec k its fuel.
+  Proof.
+    intros Hpos. induction fuel as [|f IH]; apply explore_best_step; try exact Hpos.
+    - intros f E. discriminate.
+    - intros f' E. injection E as <-. exact IH.
+  Qed.
+
+  (** no leaf of the CKK search tree has a smaller max-min difference than ckk's result *)
+  Theorem ckk_best_in_tree : forall k items b e, (1 <= k)%nat ->
+    Forall (fun x => 0 <= valueof x) items ->
+    ckk valueof nameof true k items = Ok b ->
+    expands (initial_heap valueof true k items) [e] ->
+    zmax (sums b) - zmin (sums b) <= zmax (sums (snd e)) - zmin (sums (snd e)).
+  Proof.
+    intros k items b e Hk Hpos Hckk Hex.
+    pose proof (initial_heap_full k items Hk) as Hf.
+    destruct (explore_best k items Hpos (length items) (initial_heap valueof true k items)
+                (mk_ckk None None [] false O) Hf) as (_ & _ & HC).
+    - rewrite initial_heap_length. lia.
+    - intros H. discriminate H.
+    - fold (ckk_run valueof nameof true true None k items) in HC.
+      destruct (HC e Hex) as (bb & Hbb & Hle).
+      pose proof (run_chain k items) as [Hbest _]. cbv zeta in Hbest.
+      pose proof (run_hd true None k items) as Hhd. cbv zeta in Hhd.
+      pose proof (run_sorted true None k items) as Hsrt.
+      unfold ckk in Hckk.
+      destruct (ckk_part (ckk_run valueof nameof true true None k items)) as [p|]; [|discriminate].
+      injection Hckk as <-.
+      destruct (ckk_yields (ckk_run valueof nameof true true None k items)) as [|y ys];
+        cbn [hd_error] in Hhd; [discriminate|].
+      injection Hhd as ->.
+      cbn [hd_error option_map] in Hbest. rewrite Hbest in Hbb. injection Hbb as <-.
+      rewrite (bins_diff_sorted _ (Forall_inv Hsrt)) in Hle.
+      rewrite (expands_leaf_key k items _ e Hf Hex) in Hle.
+      rewrite (zmax_perm _ _ (sort_bins_sums_perm y)), (zmin_perm _ _ (sort_bins_sums_perm y)).
+      lia.
+  Qed.
+
 End KKProofs.
 
 Print Assumptions initial_heap_inv.
@@ -1286,3 +1484,4 @@ Print Assumptions ckk_generator_last.
 Print Assumptions ckk_bound_admissible.
 Print Assumptions ckk_bound_admissible_run.
 Print Assumptions ckk_prune_sound.
+Print Assumptions ckk_best_in_tree.
